@@ -56,7 +56,8 @@ mutual
       | .setE on => afterSimple ctx { s with errexit := on, status := 0 } .continue_
       | .setM on => afterSimple ctx { s with monitor := on, status := 0 } .continue_
       | .unknown => afterSimple ctx { s with status := 127 } .continue_
-      | .absent w a => afterSimple ctx { s with status := (a.orElse fun _ => w).getD 0 } .continue_
+      | .absent w r a =>
+        afterSimple ctx { s with status := (a.orElse fun _ => r.orElse fun _ => w).getD 0 } .continue_
       | .tick c k =>
         let v := getCounter s.counters c
         if v < k then afterSimple ctx { s with counters := setCounter s.counters c (v+1), status := 0 } .continue_
